@@ -135,9 +135,12 @@ func RunC01(rep *report.Report, tier string) {
 	}
 	// every history of three letters from two start states WITHOUT deduplication: hidden state (a counter, a cache)
 	// that the canonical form cannot contain is only visible to histories the deduplicating searches merge away
-	for _, name := range []string{"two-next-hops", "groups-installed"} {
+	for name, d := range map[string]int{"two-next-hops": 3, "groups-installed": 2} {
+		if tier == "thorough" {
+			d++
+		}
 		o := &Options{Letters: letters, Checks: Checks{Fold: true}, Init: Alphabet(ribInits[name]...)}
-		SearchAll(rep, "rib/from-"+name+"/every-history-no-deduplication", o, 3, ck.Next())
+		SearchAll(rep, "rib/from-"+name+"/every-history-no-deduplication", o, d, ck.Next())
 	}
 	rt.MapOrder = 1 // descending iteration order of every map of the instrumented packages (held-operation walk)
 	o := &Options{Letters: letters, Checks: Checks{Fold: true}, Init: Alphabet(ribInits["held-operations"]...)}
